@@ -3,7 +3,7 @@
    (P) proved for every starting tree and every model list; (R) refuted on a concrete witness by computation —
    each (R) witness is replayed on the real binary by checks/c20.py (corpus/cli/c20_*.json).
    "generated files" = files with the ORM's extension (.rs for SeaORM, .py for the Python ORMs). *)
-From VV.CLI Require Import ExportTree ExportP ExportReachP.
+From VV.CLI Require Import ExportTree ExportP ExportReachP DirsP.
 
 (* (P) the generated files after an export are the same whatever the directory held before;
    with t2 = [] : the same as an export into an empty directory *)
@@ -73,6 +73,26 @@ Check C20_export_no_residue : forall o ms t r,
   export o ms t = Ok r ->
   forall p c, path_has_ext (orm_ext o) p = true -> file_at p r = Some c ->
     (exists m, In m ms /\ p = out_path o m) \/ (o = SeaOrm /\ last p "" = "mod.rs").
+
+(* (P) directories are minimal: no directory below the root is left without a file beneath it (the cleaner removes
+   a sub-directory iff it is empty after its own recursion; every directory the export creates receives a file) *)
+Theorem C20_dirs_minimal : forall o ms t r,
+  export o ms t = Ok r ->
+  forall p, p <> [] -> is_dir_at p r = true -> exists q c, file_at (p ++ q) r = Some c.
+Proof. exact dirs_minimal. Qed.
+Print Assumptions C20_dirs_minimal.
+Check C20_dirs_minimal : forall o ms t r,
+  export o ms t = Ok r ->
+  forall p, p <> [] -> is_dir_at p r = true -> exists q c, file_at (p ++ q) r = Some c.
+
+(* a Python export into the dirty directory: `stay` held only a .py file and goes, `gone` keeps its .rs file but loses
+   its empty sub-directory `e`, `sub/deep` is created for the entity *)
+Example C20_dirs_minimal_nonvacuous :
+  exists r, export SqlAlchemy ex_models ex_dirty = Ok r
+    /\ is_dir_at ["sub"; "deep"] r = true
+    /\ lookup ["stay"] r = None
+    /\ lookup ["gone"] r = Some (NDir [("mod.rs", NFile [LDecl "z"])]).
+Proof. eexists. split; [vm_compute; reflexivity|]. repeat split; vm_compute; reflexivity. Qed.
 
 (* (P) SeaORM: the `pub mod` chain reaches every entity whose module path is its file path *)
 Theorem C20_mod_chain_reaches_all : forall ms t r,
